@@ -664,12 +664,66 @@ def r4_order(program, folder, rep):
               construct="node pairs sorted", node=g)
 
 
+def r3_grouping(program, rep):
+    """Within a node every core belongs to exactly one pair: the one of its
+    own set of selected sub-blocks (cores are grouped by *equal* selections;
+    grouping by containment lists a core under every smaller selection
+    too, so it is selected twice)."""
+    g = program.get(TREE + ".get_regions_and_coremasks")
+    inst = qual(g)
+    T = Terms(g)
+    LS = ("attr", SELF, "locally_selected")
+    CORE, OWN = ("index", LS), ("elem", LS)
+    BIT = ("binop", "LShift", ("const", 1), CORE)
+    seen = []
+    for n, st, base, key, val in stores(T):
+        v = plain(val)
+        if v[0] == "binop" and v[1] == "BitOr" and BIT in (v[2], v[3]):
+            seen.append((st, plain(key) == OWN, "filed under %s" %
+                         show(plain(key))[:40]))
+    for b_ in T.binds:
+        if b_.mode != "aug":
+            continue
+        v = plain(T._bind_term(b_))
+        if not (v[0] == "binop" and v[1] == "BitOr" and
+                BIT in (v[2], v[3])):
+            continue
+        verdict = None
+        for t, p in T.all_facts(b_.node):
+            t = plain(t)
+            if not (p and t[0] == "cmp" and t[1] == "Eq"):
+                continue
+            sides = (t[2], t[3])
+            if OWN in sides:
+                verdict = (True, "equal selections")
+            elif any(x[0] == "binop" and x[1] == "BitAnd" and
+                     OWN in (x[2], x[3]) for x in sides):
+                verdict = (False, "selections that contain the pair's "
+                           "sub-blocks (a containment test)")
+        if verdict is None:
+            raise AnalysisError("get_regions_and_coremasks: the test under "
+                                "which a core joins a pair was not read")
+        seen.append((b_.node.ast,) + verdict)
+    if not seen:
+        raise AnalysisError("get_regions_and_coremasks: how cores are "
+                            "grouped into the node's own pairs is not "
+                            "analysed in this form")
+    for st, ok, what in seen:
+        rep.check(ok, "C12-R3", inst, "a core is listed under its own set "
+                  "of selected sub-blocks only", construct="core grouping",
+                  node=st,
+                  fail="cores are grouped by %s: a core whose selection "
+                       "strictly contains another core's is listed in both "
+                       "pairs and selected twice" % what)
+
+
 def check(program, rep):
     program.module(MOD)
     folder = Folder(program)
     bit = rep.guard("C12-R1", r1_layout, program, folder, rep)
     rep.guard("C12-R2", r2_index, program, rep, bit)
     rep.guard("C12-R3", r3_collapse, program, folder, rep)
+    rep.guard("C12-R3", r3_grouping, program, rep)
     rep.guard("C12-R4", r4_order, program, folder, rep)
     rep.floor("C12-R1", 5)
     rep.floor("C12-R2", 7)
